@@ -415,6 +415,21 @@ def avl_session_case(rng, cid, bits=None, lay=None):
     ops += ['len', 'capq', 'full', 'fill %d' % fresh_key(lay, uni)]
     return Case(cid, 'avl', {'bits': bits, 'lay': lay, 'cap': cap, 'nrec': cap + extra, 'keep': 1, 'mode': 'persistent'}, ops, {'stream': 'I'})
 
+def avl_medium_case(rng, cid, bits=32, lay='u32u32', cap=300):
+    """a tree of a few hundred records (capacity words wider than one byte) that is never full: recycled and
+    never-used slots are present together; refused operations, queries, explicit re-opens and a growth step"""
+    keys = list(range(10, 10 + 2 * cap, 2))
+    rng.shuffle(keys)
+    live = keys[:cap - 30]
+    ops = ['ins %d %d' % (k, k % 97) for k in live]
+    gone = []
+    for _ in range(12):
+        k = live.pop(rng.randrange(len(live))); gone.append(k); ops.append('rem %d' % k)
+    ops += ['openro', 'len', 'ins %d 1' % live[0], 'openmut', 'capq', 'rem %d' % gone[0], 'openro', 'get %d' % live[1], 'gmut0 %d' % live[2],
+            'ins %d 2' % live[3], 'openmut', 'len', 'low', 'has %d' % gone[1], 'dbg', 'full', 'ins %d 5' % gone[2], 'openmut',
+            'rem %d' % live[4], 'ext 2', 'openro', 'capq', 'ins %d 3' % live[5], 'capq', 'len', 'ins %d 6' % gone[3], 'rem %d' % gone[4], 'openmut', 'len']
+    return Case(cid, 'avl', {'bits': bits, 'lay': lay, 'cap': cap, 'nrec': cap, 'mode': 'persistent'}, ops, {'stream': 'H'})
+
 def avl_growth_cycles(rng, cid, bits=None, lay=None, mode='persistent'):
     """repeated growth in every combination of 'full / not full / emptied' and 'free list empty / not
     empty' at the growth point, each followed by filling the tree completely"""
